@@ -211,25 +211,70 @@ def n_from_class(rng, nclass):
     return int(rng.integers(11, 61))
 
 
+SWEEP_RELATIONS = ["same", "beyond", "shifted", "nested", "free", "short"]
+_SWEEP_REL_P = [0.25, 0.25, 0.15, 0.1, 0.1, 0.15]
+_MARGIN = 0.025  # decades (~6 %): a sweep boundary stays a strict reversal after 5-significant-digit / integer rounding
+
+
+def _log_grid(rng, m, lo):
+    """m ascending log10-frequencies starting at lo, neighbours 0.03 .. 0.5 decades (>= 7 %) apart, span <= ~8 decades."""
+    hi_step = max(0.05, min(0.5, 8.0 / max(m, 2)))
+    steps = rng.uniform(0.03, hi_step, size=max(m - 1, 0))
+    return lo + np.concatenate([[0.0], np.cumsum(steps)])
+
+
 def gen_sweeps(rng, n, nsweeps, order):
-    """List of (f, Z) per sweep in *row order*.  Frequencies strictly monotonic inside a sweep, every following sweep
-    starts beyond the end of the previous one in the reverse direction (so a reversal marks a new sweep), neighbouring
-    points >= 7 % apart (survives 5-significant-digit instrument formats).  |Z| over 12 decades, all four quadrants."""
-    lo = rng.uniform(-4.0, 5.0)
-    hi_step = max(0.05, min(0.5, 8.0 / max(n, 2)))
-    steps = rng.uniform(0.03, hi_step, size=max(n - 1, 0))
-    logs = lo + np.concatenate([[0.0], np.cumsum(steps)])
-    base = 10.0 ** logs  # ascending
+    """List of (f, Z) per sweep in *row order*.  Frequencies strictly monotonic inside a sweep (neighbours >= 7 % apart:
+    survives 5-significant-digit instrument formats), all sweeps of a file in the same row order, and every following
+    sweep starts strictly beyond the end of the previous one in the reverse direction - a reversal is what marks a new
+    sweep, so e.g. descending rows 100k..1k followed by 100..1 are one monotonic run, not two sweeps, and are never
+    written as two.  Within that contract the later sweeps are unrelated to the first: the same grid (full or a
+    row-order prefix, +-0.1 % jitter), a range lying entirely beyond the first one (above it for descending rows, below
+    it for ascending rows: the file then ends on the "wrong" side of where it started), shifted / partially overlapping,
+    nested, anywhere, or short (one or two points among longer sweeps; the first sweep has >= 2 points unless the whole
+    file is one point, because the first two rows define the row order).  Lengths differ between sweeps.
+    |Z| over 12 decades, all four quadrants."""
+    desc = order == "desc"
+    base = _log_grid(rng, n, rng.uniform(-4.0, 5.0))  # ascending log10 f of the first sweep
+    grids = [base]
+    relations = ["first"]
+    for k in range(1, nsweeps if n >= 2 else 1):
+        rel = SWEEP_RELATIONS[int(rng.choice(len(SWEEP_RELATIONS), p=_SWEEP_REL_P))]
+        prev = grids[-1]
+        prev_last = prev[0] if desc else prev[-1]  # last ROW of the previous sweep
+        if rel == "same":
+            m = n if (n <= 2 or rng.random() < 0.6) else int(rng.integers(2, n + 1))
+            g = base + math.log10(1.0 + float(rng.choice([0.0, 1e-3, -1e-3])))
+            g = g[len(g) - m:] if desc else g[:m]  # the first m rows
+        else:
+            m = int(rng.integers(1, 3)) if rel == "short" else int(rng.integers(2, max(3, min(60, n + n // 2) + 1)))
+            span = _log_grid(rng, m, 0.0)
+            width = float(span[-1])
+            if rel == "beyond":
+                gap = float(rng.uniform(0.05, 3.0))
+                lo = (base[-1] + gap) if desc else (base[0] - gap - width)
+            elif rel == "shifted":
+                lo = base[0] + float(rng.uniform(-2.0, 2.0))
+            elif rel == "nested":
+                lo = float(rng.uniform(base[0], max(base[0], base[-1] - width)))
+            else:  # free / short
+                lo = float(rng.uniform(-5.0, 6.0))
+            g = span + lo
+        # the contract: the first row of this sweep lies strictly beyond the last row of the previous sweep
+        if desc and g[-1] < prev_last + _MARGIN:
+            g = g + (prev_last + float(rng.uniform(_MARGIN, 1.5)) - g[-1])
+        elif not desc and g[0] > prev_last - _MARGIN:
+            g = g - (g[0] - prev_last + float(rng.uniform(_MARGIN, 1.5)))
+        grids.append(g)
+        relations.append(rel)
     out = []
     base_mag = rng.uniform(-6.0, 6.0)
     wild = rng.random() < 0.25
-    for k in range(nsweeps if n >= 2 else 1):
-        m = n if (k == 0 or n <= 2 or rng.random() < 0.6) else int(rng.integers(2, n + 1))
-        eps = 0.0 if k == 0 else float(rng.choice([0.0, 1e-3, -1e-3]))
-        f = base * (1.0 + eps)
-        if order == "desc":
+    for g in grids:
+        f = 10.0 ** np.asarray(g, dtype=float)
+        if desc:
             f = f[::-1]
-        f = f[:m]
+        m = len(f)
         if wild:
             mag = 10.0 ** rng.uniform(-6.0, 6.0, size=m)
         else:
